@@ -129,11 +129,15 @@ def chain(x, cycles, key):
         return "unloadable", vs, None
     try:
         s_before = S.snapshot(o)
+        raw_before = raw_lists(o)
         y1 = C.save(o)
     except Exception as e:
         return "unsavable:" + type(e).__name__, vs, None
     s_after = S.snapshot(o)
     d = S.diff(s_before, s_after)
+    if not d and raw_lists(o) != raw_before:
+        # the public list objects themselves (also trailing freed link slots, empty sample slots, ...)
+        vs.append(C.viol("save-not-pure", dict(key, path="raw-lists"), {"before": raw_before, "after": raw_lists(o)}))
     if d:
         vs.append(C.viol("save-not-pure", dict(key, path=C.first_diff_key(d)), {"diff": S.diff_text(d)}))
     if C.save(o) != y1:
@@ -152,6 +156,33 @@ def chain(x, cycles, key):
             break
         prev = y
     return "ok", vs, C.h8(y1)
+
+
+def built_purity(p, key):
+    vs = []
+    s0, r0 = S.snapshot(p), raw_lists(p)
+    y = C.save(p)
+    if S.diff(s0, S.snapshot(p)) or raw_lists(p) != r0:
+        vs.append(C.viol("save-not-pure", dict(key, path="raw-lists" if raw_lists(p) != r0 else "snapshot"),
+                         {"before": r0, "after": raw_lists(p)}))
+    if C.save(p) != y:
+        vs.append(C.viol("save-twice-differs", key, {}))
+    return vs
+
+
+def raw_lists(o):
+    """Public list-valued attributes exactly as they are (the snapshot normalises trailing freed slots away)."""
+    mods = getattr(o, "modules", None)
+    if mods is None:
+        mods = [o.module]
+    out = [len(mods), len(getattr(o, "patterns", []))]
+    for m in mods:
+        if m is None:
+            out.append(None)
+            continue
+        out.append([list(m.in_links), list(m.in_link_slots), list(m.out_links), list(m.out_link_slots),
+                    len(getattr(m, "samples", [])), len(getattr(getattr(m, "mappings", None), "values", []) or [])])
+    return out
 
 
 def first_difference(a, b):
@@ -185,6 +216,27 @@ def describe_difference(a, b):
 
 def run_case(case):
     cycles = case.get("cycles", 3)
+    if "built_history" in case:
+        from checks import c07
+
+        sysm = c07.LinkSystem(case["built_history"])
+        L = sysm.fresh()
+        for op in case["built_history"]:
+            sysm.apply(L, op)
+        vs = built_purity(L.p, {"built": "links"})
+        for v in vs:
+            v["case"] = case
+        return vs
+    if "legacy" in case:
+        from checks import c16
+
+        out = []
+        for rep in range(2):
+            _st, vs, _h = chain(c16.legacy_variants()[case["legacy"]], cycles, {"file": "sampler.sunsynth", "legacy": case["legacy"]})
+            out += vs
+        for v in out:
+            v["case"] = case
+        return out
     if "refnested" in case:
         data = dict(reference_nested_files(case["max_depth"]))[case["refnested"]]
         label = case["refnested"]
@@ -265,6 +317,44 @@ def _task(t):
                 r["digests"].add(h)
             r["violations"] += vs
         r["sample"] = {"refnested": "ref-nested:Amplifier:depth2:project"}
+    elif kind == "built":
+        # purity of saving on objects BUILT through the API (loaded objects never carry trailing freed slots)
+        import itertools
+
+        from checks import c07
+
+        ops = [o for o in c07.alphabet_A1([0, 1, 2]) if o["op"] != "save"]
+        _k, depth, lo, hi = t
+        sysm = c07.LinkSystem(ops)
+        for first in ops[lo:hi]:
+            for d in range(depth):
+                for rest in itertools.product(ops, repeat=d):
+                    hist = [first] + list(rest)
+                    L = sysm.fresh()
+                    for op in hist:
+                        sysm.apply(L, op)
+                    vs = built_purity(L.p, {"built": "links"})
+                    for v in vs:
+                        v["case"] = {"built_history": hist}
+                    r["evals"] += 1
+                    C.count(r, "built")
+                    if len(r["violations"]) < 10:
+                        r["violations"] += vs
+        r["sample"] = {"built_history": [ops[lo], ops[-1]]}
+    elif kind == "legacy":
+        from checks import c16
+
+        for name, data in c16.legacy_variants().items():
+            for rep in range(2):      # twice in the same process: state left behind by the first chain must not matter
+                st, vs, h = chain(data, t[1], {"file": "sampler.sunsynth", "legacy": name})
+                for v in vs:
+                    v["case"] = {"legacy": name, "cycles": t[1]}
+                r["evals"] += 1
+                C.count(r, st.split(":")[0])
+                if h:
+                    r["digests"].add(h)
+                r["violations"] += vs
+        r["sample"] = {"legacy": "signature-altered"}
     elif kind == "objects":
         _k, which, cycles, lo, hi = t
         from checks import c15, c16
@@ -341,6 +431,9 @@ def run(ctx):
         for lo in range(0, n, 60):
             tasks.append(("gen", k, ctx.seed, ("synth", "project") if ctx.thorough else ("synth",), cycles, lo, min(n, lo + 60)))
     tasks.append(("refnested", cycles, 5 if ctx.thorough else 3))
+    tasks.append(("legacy", cycles))
+    for lo in range(0, 27, 2):
+        tasks.append(("built", 4 if ctx.thorough else 3, lo, lo + 2))
     from checks import c15, c16
 
     class _Q:
